@@ -302,6 +302,8 @@ def value_obj(v: dict):
         return tuple(value_obj(x) for x in v["elts"])
     if k == "list":  # an unhashable non-array value
         return [1, 2]
+    if k == "int":
+        return 7
     raise ValueError(v)
 
 
@@ -311,7 +313,7 @@ def value_sx(v: dict) -> str:
         return f"(arr ({v['lib']} {v['dt']} ({' '.join(sx_int(s) for s in v['shape'])})))"
     if k == "none":
         return "none"
-    if k in ("other", "list"):
+    if k in ("other", "list", "int"):
         return "other"
     if k == "tup":
         return "(tup " + " ".join(value_sx(x) for x in v["elts"]) + ")"
@@ -404,11 +406,11 @@ def run_fn_case(case: dict) -> dict:
             cls_src = "class K:\n" + "".join("    " + ln + "\n" for ln in src.splitlines())
             if prov is not None and prov["kind"] == "self" and prov.get("scope") != "bad":
                 cls_src += "    def get_dltype_scope(self):\n        return PROVIDER.get_dltype_scope()\n"
-            exec(cls_src, ns)  # noqa: S102
+            exec(compile(cls_src, '<case>', 'exec', dont_inherit=True), ns)  # noqa: S102
             target = ns["K"]().f
             raw = ns["K"].__dict__["f"]
         else:
-            exec(src, ns)  # noqa: S102
+            exec(compile(src, '<case>', 'exec', dont_inherit=True), ns)  # noqa: S102
             target = raw = ns["f"]
     except BaseException as e:  # noqa: BLE001
         return {"v": "decerr", "exn": type(e).__name__, "src": src}
